@@ -65,8 +65,11 @@ class BlockAnalysis:
         return bool(cond)
 
     def guard_perm(self, test):
-        b = pmatch('np.any(__p - np.arange(len(__p)))', test)
+        b = pmatch('np.any(__p - np.arange(len(__q)))', test)
         if b is not None and b['__p'] in self.perm:
+            if b['__q'] != b['__p']:
+                self.ok('perm-pair', test, False, f'guard `{norm(test)}` compares the permutation `{b["__p"]}` with the identity '
+                                                  f'of the length of `{b["__q"]}`')
             return b['__p']
         return None
 
